@@ -53,7 +53,7 @@ type c12Resp struct {
 	aux  uint64
 }
 
-var respNames = []string{"ample", "exact", "deficit-1", "1sat", "barely", "empty", "noutxo", "noutxo-wrapped", "error", "bad-txid", "bad-script", "nil-script", "cancel", "noutxo+batch", "error+batch"}
+var respNames = []string{"ample", "exact", "deficit-1", "1sat", "barely", "empty", "noutxo", "noutxo-wrapped", "error", "bad-txid", "bad-script", "nil-script", "cancel", "noutxo+batch", "error+batch", "cancel+batch"}
 
 type c12Scenario struct {
 	stdSat, stdBytes, dataSat, dataBytes int
@@ -66,6 +66,8 @@ type c12Scenario struct {
 	resps2                               []c12Resp
 	huge                                 bool // quota: the input count crosses 65535 -> 65536 during Fund
 	requote                              int  // 0 no, 1 AddQuote, 2 UnmarshalJSON between the two Fund calls
+	deadCtx                              bool // Fund is handed a context that is already cancelled
+	whale                                int  // 0 no; 1 an output above 2^63 sat; 2 a prior input above 2^63 sat
 	sharedFee                            bool // one *bt.Fee object registered under both fee types (a miner with a single rate)
 	stdSat2, stdBytes2                   int
 	dataSat2, dataBytes2                 int
@@ -224,7 +226,7 @@ func genC12(c *kernel.RunCtx) *c12Scenario {
 		c.Begin("resp")
 		r := c12Resp{}
 		//               ample exact d-1 1sat barely empty noutxo wrapped error badtxid badscript nilscript cancel
-		r.kind = c.Pick(5, 8, 6, 5, 8, 4, 1, 1, 1, 1, 1, 1, 1, 1, 1)
+		r.kind = c.Pick(5, 8, 6, 5, 8, 4, 1, 1, 1, 1, 1, 1, 1, 1, 1, 1)
 		r.n = 1 + c.Pick(5, 3, 2, 1, 1)
 		if c.Bool(1, 50) {
 			r.n = c.Range(250, 300) // one huge batch: crosses the input-count varint boundary at once
@@ -233,6 +235,20 @@ func genC12(c *kernel.RunCtx) *c12Scenario {
 		r.aux = c.U64n(1 << 20)
 		s.resps = append(s.resps, r)
 		c.End()
+	}
+	s.deadCtx = c.Bool(1, 30)
+	if c.Bool(1, 40) && !many && !s.huge {
+		// amounts above 2^63 satoshis (legal uint64 values; nothing here is a length): a single output, or a single
+		// prior input, so that the gap between the two sides does not fit a signed 64-bit number
+		s.whale = 1 + c.Choose(2)
+		big := []uint64{1<<63 - 1, 1 << 63, 1<<63 + 12345, 1<<64 - 1<<33}[c.Choose(4)]
+		if s.whale == 1 {
+			s.outs = append(s.outs, c12Out{sats: big, script: p2pkh(s.h20(900))})
+		} else {
+			s.priorVals = append(s.priorVals, big)
+			s.priorForm = append(s.priorForm, 0)
+		}
+		c.Count("probe.amount_above_2^63", 1)
 	}
 	if c.Bool(1, 40) && !many {
 		// a patient caller: the supplier has nothing (or only dust) for dozens of rounds in a row, then delivers
@@ -269,6 +285,7 @@ type ctxKey struct{}
 
 // supplier is the scripted counter-party plus the lock-step reference model.
 type c12Supplier struct {
+	ctxDead bool // the context handed to Fund is done (before the call, or cancelled by the supplier) — nobody reported exhaustion
 	c       *kernel.RunCtx
 	s       *c12Scenario
 	fq      *bt.FeeQuote
@@ -420,6 +437,11 @@ func (p *c12Supplier) next(ctx context.Context, deficit uint64) ([]*bt.UTXO, err
 	case 14:
 		p.expect, p.after = "error", true
 		return []*bt.UTXO{p.mkUTXO(md+5000, 0)}, fmt.Errorf("rpc call %d: %w", idx, errC12Injected)
+	case 15:
+		// the caller's context dies while the supplier is at work; the supplier does not care and delivers a small batch
+		p.cancel()
+		p.ctxDead = true
+		total = 1 + r.aux%50
 	default:
 		total = md + r.aux%1000
 	}
@@ -437,6 +459,12 @@ func (p *c12Supplier) next(ctx context.Context, deficit uint64) ([]*bt.UTXO, err
 			kind = r.kind
 		}
 		batch = append(batch, p.mkUTXO(v, kind))
+	}
+	if len(batch) >= 2 && r.aux%7 == 3 && r.kind < 9 {
+		// the supplier hands over the very same *UTXO object twice in one batch: every returned UTXO becomes an
+		// input, in order (whether that makes a sensible transaction is not Fund's business)
+		batch[len(batch)-1] = batch[0]
+		c.Count("probe.same_utxo_object_twice_in_batch", 1)
 	}
 	// apply to the model: the first bad-txid UTXO stops FromUTXOs
 	for _, u := range batch {
@@ -562,6 +590,11 @@ func (w *c12World) fundPhase(c *kernel.RunCtx, s *c12Scenario, tx, model *bt.Tx,
 	ctx, cancel := context.WithCancel(context.WithValue(context.Background(), ctxKey{}, token))
 	defer cancel()
 	sup := &c12Supplier{c: c, s: s, fq: fq, resps: resps, model: model, token: token, cancel: cancel, maxCall: len(resps) + 3, rates: rates}
+	if s.deadCtx {
+		cancel()
+		sup.ctxDead = true
+		c.Count("probe.context_dead_before_fund", 1)
+	}
 	// snapshot of outputs
 	outsBefore := tx.Outputs
 	ptrs := append([]*bt.Output(nil), tx.Outputs...)
@@ -646,6 +679,10 @@ func (w *c12World) fundPhase(c *kernel.RunCtx, s *c12Scenario, tx, model *bt.Tx,
 		if err == nil {
 			c.Fail("result", site, "supplier handed an unusable UTXO (%s) but Fund returned nil", sup.expect)
 		}
+	case sup.ctxDead && err != nil && errors.Is(err, context.Canceled):
+		// the context was dead and Fund said so: stopping early with the context's error is as good as carrying on
+		// (the statement only speaks about exhaustion). What it must not do is call this insufficient funds.
+		c.Count("probe.dead_context_reported", 1)
 	default:
 		// no terminal response: the model must have reached deficit 0, or the
 		// history ran out (then the supplier said ErrNoUTXO and expect is set)
